@@ -4,9 +4,9 @@ V = os.path.dirname(os.path.dirname(os.path.abspath(__file__)))
 RUN = r'''
 import sys
 sys.path.insert(0, %r)
-from contracts import c10_markerframe as M, c12_thriftvals as T
-for mod in (M, T):
-    res = mod.check(None)
+from contracts import c10_markerframe as M, c12_thriftvals as T, c10_fieldwidth as FW
+for chk in (M.check, T.check, T.check_text, FW.check):
+    res = chk(None)
     for n in res.order:
         st = res.status(n)
         if st != "proved" and "else_branch_checks" not in n:
